@@ -27,25 +27,25 @@ type globalInfo struct {
 
 // Engine holds the loaded program and the contracts.
 type Engine struct {
-	repo      string
-	fset      *token.FileSet
-	prog      *ssa.Program
-	pkgs      []*packages.Package
-	spkgs     map[string]*ssa.Package // by path
-	tn        *typeNames
-	contracts *ContractSet
-	kinds     map[string]int
-	funcIDs   map[string]int
-	globIDs   map[string]int
-	typeTags  map[string]int
-	compSort  map[string]string
+	repo       string
+	fset       *token.FileSet
+	prog       *ssa.Program
+	pkgs       []*packages.Package
+	spkgs      map[string]*ssa.Package // by path
+	tn         *typeNames
+	contracts  *ContractSet
+	kinds      map[string]int
+	funcIDs    map[string]int
+	globIDs    map[string]int
+	typeTags   map[string]int
+	compSort   map[string]string
 	specConsts map[string]Term
-	ufuns     map[string]ufun
+	ufuns      map[string]ufun
 	modulePath string
 	fileHashes map[string]string
-	guards    map[string]GuardDecl // "pkgpath.Struct.field" -> decl
-	tables    map[*ssa.Global]*tableFact
-	addrTaken map[*ssa.Function]bool
+	guards     map[string]GuardDecl // "pkgpath.Struct.field" -> decl
+	tables     map[*ssa.Global]*tableFact
+	addrTaken  map[*ssa.Function]bool
 }
 
 func (e *Engine) qual(p *types.Package) string { return p.Name() }
